@@ -125,7 +125,8 @@ def C12_admit(bl_ne: bool, bl_hit: bool, wl_ne: bool, wl_hit: bool, vi: int, ts_
 
 # ---- list files: real RegexList.read_list on generated files -----------------------------------
 LINES = ['^blocked\\.', 'secret$', '# a comment', '', '   ', '(unclosed', 'b.d']
-_TMP = tempfile.mkdtemp(prefix='vp-c12-')
+from vp_lib.api import scratch_dir  # noqa: E402
+_TMP = scratch_dir('vp-c12-')
 _FILES = {}
 
 
@@ -148,8 +149,6 @@ def _gen_files():
 
 
 _gen_files()
-import atexit  # noqa: E402
-atexit.register(lambda: shutil.rmtree(_TMP, ignore_errors=True))
 
 
 def _valid(line):
